@@ -13,8 +13,8 @@ ID = 'C19'
 RULE = ('victim = release build of the current tree; every secret is run through the same #[inline(never)] function with all public inputs and lengths fixed. '
         'Monitor 1 (decides, literal): ptrace single-stepping between two markers, all secrets of a target must give the same (instruction count, hash of the RIP sequence). '
         'Monitor 2 (decides, sound): callgrind per-call dumps, the multiset {(object, instruction address) -> executions} must be identical for all secrets (a different multiset implies a '
-        'different sequence). Targets: X25519 general/fixed-base, Ed25519 keypair/sign/sign-extended, Poly1305 (two public messages, one chosen so that small r drives the accumulator next to 2^130), '
-        'HMAC-SHA256/512, ChaCha20/XChaCha20/Salsa20/ChaCha20-Poly1305 encryption, MacResult == for 16/20/32/64-byte MACs and Tag == with the first mismatch at every position. '
+        'different sequence). Targets: X25519 general/fixed-base (curve25519 and x25519 module entry points), Ed25519 keypair/sign/sign-extended (clamped and as-supplied extended scalars)/extended_to_public/exchange, Poly1305 (one-call, chunked, and a public message chosen so that small r drives the accumulator next to 2^130), '
+        'HMAC over SHA-1/SHA-256/SHA-512/SHA3-256/BLAKE2b/RIPEMD-160 (also a key longer than the block and a multi-call message), keyed BLAKE2b/2s MAC, ChaCha8/12/20 (16- and 32-byte keys), ChaChaOriginal, XChaCha20, Salsa20/12, XSalsa20, ChaCha20-Poly1305 one-shot encryption/decryption and incremental encryption, MacResult == for 16/20/28/32/48/64-byte MACs, Tag == and Tag::ct_eq with the first mismatch at every position. '
         'Monitor 3 (decides, value-independent): valgrind memcheck with the secret bytes marked undefined right before the call (ctgrind idiom): a "conditional jump depends on uninitialised value" '
         'report with a crate frame among the top frames means a branch condition derives from the secret, whether or not the sampled values take it differently (uses of the secret as a memory address are counted, not judged). '
         'Secrets: random, all-zero, all-ones, single-bit, low/high Hamming weight; distinct = (target, secret)')
@@ -22,9 +22,11 @@ ASSUMPTIONS = ['decides on sampled secrets, this compiler and this host; says no
                'callgrind and ptrace observe user-space instructions of the victim process; libc routines reached inside the region (memcpy, malloc) are part of the trace']
 FLOORS = {'evaluations': 300, 'distinct': 300}
 
-LARGE = ['x25519', 'x25519_base', 'ed_keypair', 'ed_sign', 'ed_sign_ext']
-SMALL = ['poly1305', 'poly1305_wrapmsg', 'hmac_sha256', 'hmac_sha512', 'chacha20', 'xchacha20', 'salsa20', 'aead_encrypt']
-CMP = {'macresult_eq16': 16, 'macresult_eq20': 20, 'macresult_eq32': 32, 'macresult_eq64': 64, 'tag_eq': 16}
+LARGE = ['x25519', 'x25519_base', 'ed_keypair', 'ed_sign', 'ed_sign_ext', 'ed_sign_ext_raw', 'ed_ext_pub', 'ed_exchange', 'x_dh', 'x_base']
+SMALL = ['poly1305', 'poly1305_wrapmsg', 'hmac_sha256', 'hmac_sha512', 'chacha20', 'xchacha20', 'salsa20', 'aead_encrypt',
+         'hmac_sha1', 'hmac_sha3_256', 'hmac_blake2b', 'hmac_ripemd160', 'hmac_sha256_longmsg', 'hmac_sha512_key128', 'chacha8_k16', 'chacha12', 'chachaoriginal', 'xsalsa20', 'salsa20_k16',
+         'aead_decrypt', 'aead_incremental', 'poly1305_chunks', 'blake2b_mac', 'blake2s_mac']
+CMP = {'macresult_eq16': 16, 'macresult_eq20': 20, 'macresult_eq28': 28, 'macresult_eq32': 32, 'macresult_eq48': 48, 'macresult_eq64': 64, 'tag_eq': 16, 'tag_cteq': 16}
 PUBLIC_TAG = bytes(((i * 37) + 11) & 0xff for i in range(64))
 
 
